@@ -9,7 +9,7 @@ import (
 
 type c05Case struct {
 	Lex    []int `json:"lex"`          // indices into c05Lexemes
-	Form   int   `json:"form"`         // 0: T   1: T+P   2: P+T   3: P1+T+P2
+	Form   int   `json:"form"`         // 0: T   1: T+P   2: P+T   3: P1+T+P2   4: W(T): T directly after a directive keyword, inside block P1 of c05Wrappers
 	P1     int   `json:"p1,omitempty"` // piece index
 	P2     int   `json:"p2,omitempty"`
 	Struct bool  `json:"structural,omitempty"` // Lex indexes c05Structural instead
@@ -17,7 +17,7 @@ type c05Case struct {
 
 var c05Lexemes = []string{
 	"a", " ", "\n", "\\", "{", "}", "{{", "}}", "-", "--", "{{--", "--}}", "@", "@if", "@en", "@end",
-	"\r\n", "\\\\", "@i", "@else", "@elseif", "@each", "@slot", "@dum", "@dump", "@breakI", "(", ")", "é", "\xff", "@END", "@If", "@Else", "@EACH(",
+	"\r\n", "\\\\", "@i", "@else", "@elseif", "@each", "@slot", "@dum", "@dump", "@breakI", "(", ")", "é", "\xff", "@END", "@If", "@Else", "@EACH(", "i", "I", "f",
 }
 
 var c05Structural = []string{"a", "\\", "{", "}", "{{", "}}", "-", "--", "{{--", "--}}", "@", "@if", "@en", "\n"}
@@ -26,6 +26,47 @@ var c05Keywords = []string{"@if", "@else", "@elseif", "@end", "@use", "@reserve"
 	"@continueIf", "@break", "@breakIf", "@component", "@slot", "@dump"}
 
 type c05Piece struct{ src, out string }
+
+// c05Wrapper: the text T stands directly behind a directive (tail is that directive's keyword when it has no
+// parentheses) and is closed by post. fixed != "": what the whole renders to whatever T is (T is never reached).
+type c05Wrapper struct{ pre, tail, post, fixed string }
+
+var c05Wrappers = []c05Wrapper{
+	{"@if(false)N@else", "@else", "@end", ""},
+	{"@if(true)", "", "@end", ""},
+	{"@each(v in [1])", "", "@end", ""},
+	{"@each(v in [1])A@break", "@break", "@end", "A"},
+	{"@each(v in [1, 2])B@continue", "@continue", "@end", "BB"},
+	{"@if(false)N@elseif(true)", "", "@else N@end", ""},
+}
+
+// c05Expected: the reference output of a case; defined=false when the case is outside the property's domain.
+func c05Expected(cs c05Case) (src, out string, defined bool) {
+	src, active, text := c05Build(cs)
+	out, defined = c05Scan(src, active)
+	if !defined || cs.Form != 4 {
+		return src, out, defined
+	}
+	w := c05Wrappers[cs.P1]
+	if strings.HasSuffix(text, "\\") {
+		return src, "", false // the backslash would escape the closing directive: the block is then unterminated
+	}
+	if w.tail != "" {
+		// the keyword must end where T starts: "@else" + "if" would be another directive
+		for _, k := range c05Keywords {
+			if len(k) > len(w.tail) && strings.HasPrefix(w.tail+text, k) {
+				return src, "", false
+			}
+		}
+	}
+	if text != "" && (text[0] == '(' || text[0] == ' ' && strings.HasPrefix(strings.TrimLeft(text, " "), "(")) && w.tail != "" {
+		return src, "", false // parentheses after a keyword without arguments: not pinned down
+	}
+	if w.fixed != "" {
+		return src, w.fixed, true
+	}
+	return src, out, true
+}
 
 var c05Pieces = []c05Piece{{"{{ 1 }}", "1"}, {"@if(true)X@end", "X"}, {"{{-- c --}}", ""}}
 
@@ -119,17 +160,22 @@ func c05Build(cs c05Case) (src string, active map[int]c05Piece, text string) {
 	case 2:
 		active[0] = c05Pieces[cs.P1]
 		src = c05Pieces[cs.P1].src + text
-	default:
+	case 3:
 		active[0] = c05Pieces[cs.P1]
 		active[len(c05Pieces[cs.P1].src)+len(text)] = c05Pieces[cs.P2]
 		src = c05Pieces[cs.P1].src + text + c05Pieces[cs.P2].src
+	default:
+		w := c05Wrappers[cs.P1]
+		active[0] = c05Piece{w.pre, ""}
+		active[len(w.pre)+len(text)] = c05Piece{w.post, ""}
+		src = w.pre + text + w.post
 	}
 	return src, active, text
 }
 
 func c05Check(cs c05Case) (ok bool, sig, expected, observed string) {
-	src, active, text := c05Build(cs)
-	out, defined := c05Scan(src, active)
+	_, _, text := c05Build(cs)
+	src, out, defined := c05Expected(cs)
 	if !defined {
 		return true, "", "undefined", "not run"
 	}
@@ -154,7 +200,10 @@ func c05Check(cs c05Case) (ok bool, sig, expected, observed string) {
 		ks = append(ks, k)
 	}
 	sort.Strings(ks)
-	form := []string{"T", "T+P", "P+T", "P+T+P"}[cs.Form]
+	form := []string{"T", "T+P", "P+T", "P+T+P", "W(T)"}[cs.Form]
+	if cs.Form == 4 {
+		form += ":" + c05Wrappers[cs.P1].pre
+	}
 	return false, why + "/" + form + "/" + strings.Join(ks, " "), exp.String() + " for " + strconvQuote(src), o.String()
 }
 
@@ -168,8 +217,8 @@ func c05Run(c *Ctx) {
 		if c.Expired() {
 			return false
 		}
-		src, active, text := c05Build(cs)
-		out, defined := c05Scan(src, active)
+		_, _, text := c05Build(cs)
+		src, out, defined := c05Expected(cs)
 		if !defined {
 			c.Count("outside_domain", 1)
 			return true
@@ -196,6 +245,11 @@ func c05Run(c *Ctx) {
 		}
 		if !splices {
 			return true
+		}
+		for wi := range c05Wrappers {
+			if !do(c05Case{Lex: lex, Struct: structural, Form: 4, P1: wi}, k) {
+				return false
+			}
 		}
 		for p := range c05Pieces {
 			if !do(c05Case{Lex: lex, Struct: structural, Form: 1, P1: p}, k) || !do(c05Case{Lex: lex, Struct: structural, Form: 2, P1: p}, k) {
